@@ -314,7 +314,7 @@ std::string classify_forked(const std::vector<uint8_t>& tape) {
     }
     for (int s : {SIGABRT, SIGSEGV, SIGFPE, SIGILL, SIGBUS}) signal(s, SIG_DFL);
     g_crash_path[0] = 0;
-    alarm(60);
+    alarm(20);
     Result r = run_one(tape);
     std::string c = r.cls;
     if (write(pfd[1], c.data(), c.size()) < 0) {
@@ -340,9 +340,16 @@ std::string classify_forked(const std::vector<uint8_t>& tape) {
   return "CRASH";
 }
 
-std::vector<uint8_t> shrink(std::vector<uint8_t> cur, const std::string& want, long budget, long* used) {
+std::vector<uint8_t> shrink(std::vector<uint8_t> cur, const std::string& want, long budget, long* used,
+                            double max_seconds = 240) {
   long n = 0;
+  auto t0 = std::chrono::steady_clock::now();
+  // the candidate budget bounds the work; the wall-clock limit is only a safety net for trees on which candidates hang
   auto fails = [&](const std::vector<uint8_t>& c) {
+    if (std::chrono::duration<double>(std::chrono::steady_clock::now() - t0).count() > max_seconds) {
+      n = budget;  // stop: keep the best tape found so far
+      return false;
+    }
     ++n;
     return classify_forked(c) == want;
   };
